@@ -230,6 +230,18 @@ def shape_scenarios(seed):
         steps=[c12, c13_, {"a": "burst", "t": 40, "o": 1, "reqs": [R(1, to=3, dial=False, rdelay=300), R(2, to=2, dial=False, pol="stall")]},
                {"a": "freeze_proto", "t": 60, "o": 1}, {"a": "cut", "t": 80, "from": 1, "to": 3, "dir": "up", "after": 0},
                {"a": "kill", "t": 40, "o": 2}, {"a": "thaw_proto", "t": 200, "o": 1}])
+    # a Dial request issued in the window in which the protocol has already processed ConnectionClosed while the
+    # manager (the application loop, held here) still says "connected": the dial is refused with AlreadyConnected, no
+    # dial is started and nothing will ever report on it - the request has to fail at once.  No reconnect follows.
+    for hold in (100, 300, 700):
+        add("dial-request-in-close-window-kill-%d" % hold, keep_alive_ms=60000,
+            steps=[con, {"a": "freeze_mgr", "t": 40, "o": 1}, {"a": "kill", "t": 10, "o": 2},
+                   {"a": "burst", "t": hold, "o": 1, "reqs": [R(1), R(2, dial=False), R(3)]},
+                   {"a": "thaw_mgr", "t": 100, "o": 1}, {"a": "sleep", "t": 200}])
+        add("dial-request-in-close-window-keepalive-%d" % hold, keep_alive_ms=60000, nodes=[{}, {"keep_alive_ms": 200}],
+            steps=[con, {"a": "freeze_mgr", "t": 40, "o": 1},
+                   {"a": "burst", "t": 350 + hold, "o": 1, "reqs": [R(1), R(2)]},
+                   {"a": "thaw_mgr", "t": 100, "o": 1}, {"a": "sleep", "t": 200}])
     # short keep-alive: the connection is closed under the protocol's feet, later requests redial
     add("keepalive-redial", keep_alive_ms=200,
         steps=[{"a": "burst", "o": 1, "reqs": [R(1)]}, {"a": "burst", "t": 700, "o": 1, "reqs": [R(2)]},
@@ -420,6 +432,14 @@ def random_scenario(sid, rnd, tr="tcp"):
                 steps.append({"a": "connect", "t": gap(), "from": lk["to"], "to": 1})
             else:
                 steps.append({"a": "dial", "t": gap(), "from": 1, "to": lk["to"]})
+        if rnd.random() < 0.06 and len(real) > 1:
+            steps.append({"a": "freeze_mgr", "t": gap(), "o": 1})
+            steps.append({"a": "kill", "t": rnd.choice([0, 10]), "o": rnd.choice(real[1:])})
+            k += 1
+            steps.append({"a": "burst", "t": rnd.choice([50, 200, 500]), "o": 1,
+                          "reqs": [R(k, to=rnd.choice(targets), dial=True)]})
+            issued.append((1, k))
+            steps.append({"a": "thaw_mgr", "t": rnd.choice([50, 300]), "o": 1})
         if rnd.random() < 0.08 and len(real) > 1:
             steps.append({"a": "kill", "t": gap(), "o": rnd.choice(real[1:])})
         if rnd.random() < 0.08 and len(real) > 1:
